@@ -195,7 +195,10 @@ func (e *EncSpec) EncryptElement(plain []byte, ns NSStyle) (*etree.Element, erro
 			declNS(ek, "xenc", NSXenc)
 			ki := ed.CreateElement("ds:KeyInfo")
 			declNS(ki, "ds", NSDsig)
-			ki.CreateElement("ds:RetrievalMethod").CreateAttr("Type", "http://www.w3.org/2001/04/xmlenc#EncryptedKey")
+			rm := ki.CreateElement("ds:RetrievalMethod")
+			rm.CreateAttr("URI", "#_detached_key")
+			rm.CreateAttr("Type", "http://www.w3.org/2001/04/xmlenc#EncryptedKey")
+			ek.CreateAttr("Id", "_detached_key")
 			ea.AddChild(ek)
 		} else {
 			ki := ed.CreateElement("ds:KeyInfo")
